@@ -289,6 +289,33 @@ def scenario_unsuccessful_refit(run):
                         payload={"kind": "rerun"}, theorem="C03_valid")
 
 
+def scenario_scan_after_fit(run):
+    """analysis-only calls after a fit (E(delta) scan, optimal depth, initial
+    parameters of another model and back, contact point estimate): the
+    results shown stay those of the fit"""
+    cols = m1.small_curve(6, n_app=120, n_ret=50)
+    for name in ("compute_emodulus_mindelta", "estimate_optimal_mindelta",
+                 "estimate_contact_point_index"):
+        idnt = curves.make_indentation(cols)
+        idnt.apply_preprocessing(["compute_tip_position", "correct_force_offset",
+                                  "correct_tip_offset"])
+        run.case({"scenario": "analysis-after-fit", "call": name},
+                 kind="scenario")
+        try:
+            import warnings
+            with warnings.catch_warnings():
+                warnings.simplefilter("ignore")
+                idnt.fit_model(model_key="hertz_para", range_x=[-1e-6, 1e-6])
+                getattr(idnt, name)()
+            why = compare_with_fresh(idnt, cols)
+        except BaseException as e:
+            why = f"raised {type(e).__name__}: {e}"
+        if why:
+            run.failing(SITE, "analysis-after-fit:" + name,
+                        f"fit, then {name}(): {why}",
+                        payload={"kind": "rerun"}, theorem="C03_valid")
+
+
 def scenario_gcf(run):
     """regression for the repaired in-place rescaling of the contact point"""
     ok = True
@@ -415,6 +442,7 @@ def check(run):
     near_equal_corpus(run)
     scenario_direct_edit(run)
     scenario_unsuccessful_refit(run)
+    scenario_scan_after_fit(run)
     ok, detail = scenario_gcf(run)
     for k in run.known:
         if k.get("status") == "fixed" and k["id"].startswith("C03/gcf"):
